@@ -19,9 +19,11 @@ Conventions
   on every run), the storage key is the list of the values of `Generated.C15.keyFields` (extracted from
   `GetKey`); `CHUNK_SIZE` and `GB` are extracted too. That the `%v:%v…` rendering and the plain concatenation
   of ids are injective on well-formed ids (64 hex digits, decimal integers) is assumed, not modelled.
-* `numReads * CHUNK_SIZE` is an `int64` product: it **wraps** (`wrapI64`), as in Go.
+* `numReads * CHUNK_SIZE` is an `int64` product: it **wraps** (`wrapI64`), as in Go. Since /repo commit 83c108b
+  `commitBlobberRead` refuses an increment outside `[0, MaxInt64/CHUNK_SIZE]` before computing it (`maxDelta`, error
+  class `range`), so on every accepted marker the product is the true byte count (`Proofs/ReadPrice.wrap_in_range`).
   `currency.Coin(float64(price) * sizeRead)` is a raw `uint64(f)` conversion: `F64.toNatTrunc`, `none` =
-  out of range (negative or ≥ 2^64), which Go leaves implementation-defined. On amd64 (Go 1.23) such a
+  out of range (≥ 2^64 once the increment is in range), which Go leaves implementation-defined. On amd64 (Go 1.23) such a
   conversion yields a word ≥ 2^63, more than any read pool can hold (supply 4·10^18 < 2^63), so the
   redemption fails with "not enough tokens"; the model answers `insufficient` there and **no theorem relies
   on that branch** (they all carry `chargeOf … = some v`).
@@ -51,6 +53,10 @@ def wrapI64 (i : Int) : Int := Coin.u64ToI64 (Coin.i64ToU64 i)
 /-- `sizeInGB(numReads * CHUNK_SIZE)`: `float64(size) / GB` with the `int64` product. -/
 def sizeRead (numReads : Int) : F64 :=
   F64.div (F64.ofInt (wrapI64 (numReads * (chunkSize : Int)))) (F64.ofNat gb)
+
+/-- `math.MaxInt64 / CHUNK_SIZE`: the largest counter increment whose byte count fits an `int64` (the guard added by
+/repo commit 83c108b). -/
+def maxDelta : Int := 9223372036854775807 / (chunkSize : Int)
 
 /-- `currency.Coin(float64(details.Terms.ReadPrice) * sizeRead)`; `none` = conversion out of range. -/
 def chargeOf (price : Nat) (numReads : Int) : Option Nat :=
@@ -109,7 +115,7 @@ def verifySig (cr : Crypto F) (m : Marker F) : Bool :=
 
 inductive Err where
   | clientId | fields | prev | sig | noAlloc | early | late | notInAlloc | noBlobber
-  | insufficient | distribute | overflow | unsupported
+  | insufficient | distribute | overflow | unsupported | range
 deriving DecidableEq, Repr
 
 /-- `if !c { return err }`. -/
@@ -227,6 +233,8 @@ def commit (cr : Crypto F) (s : St F) (m : Marker F) : Except Err (St F × Nat) 
   let d ← getOr (al.bas.find? (fun d => d.blobber = m.blobber)) .notInAlloc
   let sp ← getOr (aGet s.sps m.blobber) .noBlobber
   let numReads := m.ctr - lastKnownCtr
+  -- since 83c108b: `if d < 0 || d > math.MaxInt64/CHUNK_SIZE { "read counter increment is out of range" }`
+  need (decide (0 ≤ numReads ∧ numReads ≤ maxDelta)) .range
   let value ← getOr (chargeOf d.price numReads) .insufficient
   let bal := s.pool m.client
   need (decide (value ≤ bal)) .insufficient
